@@ -29,6 +29,12 @@ CHECKS = {
  'C09': dict(technique='Coq lemmas on facts regenerated from yaep.c (clamp expression = max 0 (min 2 l); cache distance threshold <= 1) + the la-free specifications of C01-C05; differential run of the implementation against itself across lookahead x debug levels with the guarded goto-cache self-check',
              text='Theorems: C09_level_clamped and C09_cache_threshold are proved about expressions re-extracted from the source on every run (an edit of the clamp or of the threshold breaks the obligation); C09_verdict_determined: the prescribed verdict is a function of grammar and input only. Correspondence: all observables identical for la in {-3,0,1,2,7} x debug levels, and every goto-cache hit recomputed and compared (hook H1).',
              design='6 C09'),
+ 'C16': dict(technique='Coq lemmas that the behaviour-deciding container expressions regenerated from hashtab.c and hashtab.cpp are equal + the C19 refinement theorems for the shared container model; differential run of identical scripts through libyaep and class yaep',
+             text='Theorems: C16_same_expansion_test / C16_same_probe_step / C16_same_new_size (about expressions re-extracted from both sources on every run). Correspondence: parse stream in random configurations and allocation modes, API histories, long inputs, large ambiguous inputs and 600 wide grammars (tables expand, probe collisions) through the C and the C++ driver; every observable of every call compared. Partial: identity of two binaries is differential testing.',
+             design='6 C16'),
+ 'C19': dict(technique='Coq refinement proofs for the object stack (finished objects never move or change; top object = bytes appended; writes inside the segment) and the VLO (contents = appended minus shortened; length <= allocation), an executable faithful hash table model using the expressions regenerated from the sources; differential run of random operation sequences on the real C and C++ containers against the extracted models',
+             text='Theorems: C19_objstack (all operation sequences, by induction, via the invariant oinv and the abstraction oabs), C19_objstack_in_bounds, C19_vlo. The hash table model (probe sequence, reservation, re-use of deleted slots, expansion; expressions from Generated.v) is tied by correspondence on 750 sequences per run with colliding hash functions; its refinement proof is in progress (HashTabProofs.v).',
+             design='6 C19'),
  'C14': dict(technique='Coq refinement theorem for the API object model (objects_independent: the results seen on one object are those of its own sub-history) + differential run of random multi-object histories against the extracted model and against fresh-object replays',
              text='Theorems: C14_objects_independent, C14_error_state over all histories (induction on the call list). Correspondence: every setter / definition / error-code / parse call of a random history over 1-3 live objects returns what the model prescribes; every successful parse equals the same parse on a fresh object in a fresh process; no sanitizer report, no leak after everything is freed (LeakSanitizer), no double free in the tracked tree memory.',
              design='6 C14'),
